@@ -78,8 +78,14 @@ def grishagin_screen(fn):
     the tolerance.  An observed value is a fact; the acceptance certificate (quadtree) is what proves the absence of such points."""
     from iOpt.problems.grishagin import Grishagin
     from scipy.optimize import minimize
-    p = Grishagin(fn)
-    _sibling = Grishagin(fn % 100 + 1)
+    try:
+        p = Grishagin(fn)
+    except Exception as ex:      # noqa: BLE001   (a member that cannot be constructed is a verdict of the evaluation screen of C10; skipped here)
+        return {"fn": fn, "skipped": type(ex).__name__}
+    try:
+        _sibling = Grishagin(fn % 100 + 1)
+    except Exception:       # noqa: BLE001
+        _sibling = None
     F = p.function
     f = lambda x, y: float(F.Calculate(np.array([x, y], dtype=np.double)))     # noqa: E731
     opt = [float(t) for t in p.knownOptimum[0].point.floatVariables]
@@ -162,6 +168,8 @@ def run_2d(ctx, counts, undecided, instances):
         screens = pool.map(grishagin_screen, list(range(1, 101)), chunksize=4)
     screened = 0
     for sc in screens:
+        if "skipped" in sc:
+            continue
         screened += 1
         tol = TVREL * max(1.0, abs(sc["optv"]))
         if abs(sc["fobs"] - sc["optv"]) > 1e-4:
